@@ -21,7 +21,15 @@ Wire form of one op (also what Driver/H_c03.lean decodes):
   queries: ["q", "init"] ["q", "pvals"] ["q", "classes"] ["q", "args", VALS|null, t] ["q", "argsro", VALS|null, t]
            ["q", "rhs", VALS|null, t] ["q", "fluxes", VALS|null, t] ["q", "call", t, VALS]
            ["q", "stoich", VALS|null, t] ["q", "stoichvar", name, VALS|null, t]
+           ["q", "names", "vars"|"pars"|"rxns"|"readouts"|"surouts"|"survars"|"surrxns"|"unused"]
+           ["q", "argnames", FLAGS]  ["q", "argsf", VALS|null, t, FLAGS]  ["q", "rawstoich", name]
+           ["q", "argstc", ROWS, FLAGS]  ["q", "fluxestc", ROWS]  ["q", "rhstc", ROWS]  ["q", "eq"]
   VALS = [rat, ...] cycled over the model's current variables in declaration order.
+  FLAGS = 9 booleans: include_time, _variables, _parameters, _derived_parameters, _derived_variables, _reactions,
+          _surrogate_variables, _surrogate_fluxes, _readouts.     ROWS = [[t, VALS], ...] (distinct times)
+  ["fork"]: the history continues on `copy.deepcopy(model)`; the original must stay as it was.
+  A VAL may carry "obj": true — the plural forms then receive a `Parameter` / `Variable` object instead of the bare value.
+  ["add_surrogate", n, SUR, args|null, outs|null, st|null]: the keyword form of add_surrogate.
 """
 from __future__ import annotations
 
@@ -92,6 +100,47 @@ def mkval(vj):
     return InitialAssignment(fn=mkfn(vj["ia"]["e"], len(vj["ia"]["args"])), args=list(vj["ia"]["args"]))
 
 
+def mkpar(vj):
+    """element of add_parameters / update_parameters: the bare value, or a `Parameter` object carrying it"""
+    from mxlpy.types import Parameter
+
+    return Parameter(value=mkval(vj)) if vj.get("obj") else mkval(vj)
+
+
+def mkvar(vj):
+    from mxlpy.types import Variable
+
+    return Variable(initial_value=mkval(vj)) if vj.get("obj") else mkval(vj)
+
+
+def clean_val(vj):
+    """a VAL without the transport-only "obj" mark"""
+    if isinstance(vj, dict) and "obj" in vj:
+        return {k: v for k, v in vj.items() if k != "obj"}
+    return vj
+
+
+FLAG_NAMES = ["include_time", "include_variables", "include_parameters", "include_derived_parameters",
+              "include_derived_variables", "include_reactions", "include_surrogate_variables",
+              "include_surrogate_fluxes", "include_readouts"]
+
+
+def flags_kw(fl, skip_time=False):
+    return {k: bool(v) for k, v in zip(FLAG_NAMES, fl) if not (skip_time and k == "include_time")}
+
+
+def tc_frame(m, rows):
+    import pandas as pd
+
+    names = m.get_variable_names()
+    data = [[F(vals[i % len(vals)]) for i in range(len(names))] for _, vals in rows]
+    return pd.DataFrame(data, index=[F(t) for t, _ in rows], columns=names, dtype=float)
+
+
+def frame_rows(df):
+    return [[[c, C.num(df.loc[i, c])] for c in df.columns] for i in df.index]
+
+
 def mkcoef(cj):
     from mxlpy.types import Derived
 
@@ -104,11 +153,11 @@ def mkst(st):
     return {c: mkcoef(cj) for c, cj in st}
 
 
-def mksur(sj):
+def mksur(sj, arity=0):
     from mxlpy.surrogates import qss
 
     return qss.Surrogate(
-        model=mkmulti(sj["es"], len(sj["args"])),
+        model=mkmulti(sj["es"], max(len(sj["args"]), arity)),
         args=list(sj["args"]),
         outputs=list(sj["outs"]),
         stoichiometries={f: mkst(st) for f, st in sj["st"]},
@@ -132,6 +181,44 @@ def run_query(m, q):
             return {"ok": sorted([k, C.num(v)] for k, v in m.get_parameter_values().items())}
         if kind == "classes":
             return {"ok": [list(m.get_derived_parameter_names()), list(m.get_derived_variable_names())]}
+        if kind == "names":
+            w = q[2]
+            if w == "vars":
+                return {"ok": list(m.get_variable_names())}
+            if w == "pars":
+                return {"ok": list(m.get_parameter_names())}
+            if w == "rxns":
+                return {"ok": list(m.get_reaction_names())}
+            if w == "readouts":
+                return {"ok": list(m.get_readout_names())}
+            if w == "surouts":
+                return {"ok": list(m.get_surrogate_output_names(include_fluxes=True))}
+            if w == "survars":
+                return {"ok": list(m.get_surrogate_output_names(include_fluxes=False))}
+            if w == "surrxns":
+                return {"ok": list(m.get_surrogate_reaction_names())}
+            if w == "unused":
+                return {"ok": sorted(m.get_unused_parameters())}
+            raise ValueError(q)
+        if kind == "argnames":
+            return {"ok": list(m.get_arg_names(**flags_kw(q[2])))}
+        if kind == "argsf":
+            s = m.get_args(cur_state(m, q[2]), F(q[3]), **flags_kw(q[4]))
+            return {"ok": [[k, C.num(v)] for k, v in s.items()]}
+        if kind == "rawstoich":
+            from mxlpy.types import Derived
+
+            d = m.get_raw_stoichiometries_of_variable(q[2])
+            return {"ok": [[k, {"args": list(v.args)} if isinstance(v, Derived) else {"c": C.num(v)}]
+                           for k, v in d.items()]}
+        if kind == "argstc":
+            return {"ok": frame_rows(m.get_args_time_course(tc_frame(m, q[2]), **flags_kw(q[3], skip_time=True)))}
+        if kind == "fluxestc":
+            return {"ok": frame_rows(m.get_fluxes_time_course(tc_frame(m, q[2])))}
+        if kind == "rhstc":
+            return {"ok": frame_rows(m.get_right_hand_side_time_course(m.get_args_time_course(tc_frame(m, q[2]))))}
+        if kind == "eq":
+            return {"ok": bool(m == fresh_model(snapshot(m)))}
         if kind == "stoichvar":
             d = m.get_stoichiometries_of_variable(q[2], cur_state(m, q[3]), F(q[4]))
             return {"ok": sorted([k, C.num(v)] for k, v in d.items())}
@@ -185,11 +272,11 @@ def apply_mut(m, op):
             stoichiometries=None if op[3] is None else {r: F(v) for r, v in op[3]},
         )
     elif k == "add_parameters":
-        m.add_parameters({n: mkval(v) for n, v in op[1]})
+        m.add_parameters({n: mkpar(v) for n, v in op[1]})
     elif k == "remove_parameters":
         m.remove_parameters(list(op[1]))
     elif k == "update_parameters":
-        m.update_parameters({n: mkval(v) for n, v in op[1]})
+        m.update_parameters({n: mkpar(v) for n, v in op[1]})
     elif k == "scale_parameters":
         m.scale_parameters({n: F(v) for n, v in op[1]})
     elif k == "add_variable":
@@ -201,11 +288,12 @@ def apply_mut(m, op):
     elif k == "make_variable_static":
         m.make_variable_static(op[1], None if op[2] is None else F(op[2]))
     elif k == "add_variables":
-        m.add_variables({n: mkval(v) for n, v in op[1]})
+        m.add_variables({n: mkvar(v) for n, v in op[1]})
     elif k == "remove_variables":
-        m.remove_variables(list(op[1]), remove_stoichiometries=bool(op[2]))
+        # an iterator, as the signature allows (`variables: Iterable[str]`)
+        m.remove_variables(iter(list(op[1])), remove_stoichiometries=bool(op[2]))
     elif k == "update_variables":
-        m.update_variables({n: mkval(v) for n, v in op[1]})
+        m.update_variables({n: mkvar(v) for n, v in op[1]})
     elif k == "add_derived":
         m.add_derived(op[1], fn=mkfn(op[2]["e"], len(op[2]["args"])), args=list(op[2]["args"]))
     elif k == "update_derived":
@@ -231,7 +319,17 @@ def apply_mut(m, op):
     elif k == "remove_readout":
         m.remove_readout(op[1])
     elif k == "add_surrogate":
-        m.add_surrogate(op[1], mksur(op[2]))
+        if len(op) > 3:
+            m.add_surrogate(
+                op[1],
+                # the function takes as many arguments as the overriding `args=` names (arity is not the subject here)
+                mksur(op[2], 0 if op[3] is None else len(op[3])),
+                args=None if op[3] is None else list(op[3]),
+                outputs=None if op[4] is None else list(op[4]),
+                stoichiometries=None if op[5] is None else {f: mkst(st) for f, st in op[5]},
+            )
+        else:
+            m.add_surrogate(op[1], mksur(op[2]))
     elif k == "update_surrogate":
         m.update_surrogate(
             op[1],
@@ -260,7 +358,7 @@ def singular_ops(op):
         return [[s, n, op[2]] for n in op[1]]
     if k == "remove_parameters":
         return [[s, n] for n in op[1]]
-    return [[s, n, v] for n, v in op[1]]
+    return [[s, n, clean_val(v)] for n, v in op[1]]
 
 
 # --------------------------------------------------------------------------- real model -> wire
